@@ -4635,8 +4635,10 @@ XPath::predicates(
                     m_expression.getNumberLiteral(m_expression.getOpCodeMapValue(predOpPos + 2));
 
                 // If the index is out of range, or not an integer, just clear subQueryResults...
-                if (theIndex <= 0.0 ||
-                    NodeRefListBase::size_type(theIndex) > theLength ||
+                // (The comparisons with the length come first: converting a value
+                // that the integer type cannot hold, or a NaN, is undefined.)
+                if (!(theIndex > 0.0) ||
+                    !(theIndex <= double(theLength)) ||
                     double(NodeRefListBase::size_type(theIndex)) != theIndex)
                 {
                     subQueryResults.clear();
